@@ -333,6 +333,19 @@ func c17Docs(cfg Config, lim c17Limits) ([]corpus.Doc, error) {
 			break
 		}
 	}
+	// WebVTT documents whose signature line is not the first line (the reader skips up to it), below and above 1 KiB / 4 KiB
+	{
+		base, _ := corpus.LongLineBase("vtt")
+		for _, lead := range []string{"\n", "junk before the header\n\n", "\xef\xbb\xbf\n", strings.Repeat("x", 1100) + "\n"} {
+			for _, pad := range []int{0, 2500, 6000} {
+				b := append([]byte(lead), base...)
+				for i := 0; i < pad; i += 50 {
+					b = append(b, []byte("\nNOTE "+strings.Repeat("p", 42))...)
+				}
+				docs = append(docs, corpus.Doc{Name: fmt.Sprintf("vtt-lead%d-pad%d", len(lead), pad), Format: "vtt", Data: b, Cues: -1, Gen: true})
+			}
+		}
+	}
 	// long runs of one unusual byte (NUL, VT, space, CR, LF) in the middle of a document: filters and skippers that
 	// legitimately return "nothing yet" are sensitive to how many reads fall inside the run
 	for _, f := range []string{"srt", "vtt", "ssa", "ttml", "stl"} {
